@@ -37,7 +37,7 @@ def alloc_func(ctx):
     sf, loop = sim_loop(ctx)
     direct = []
     for cs in ctx.eff.calls_of(sf):
-        if cs.resolved and any(cs.node is n for b0 in loop.body for n in ast.walk(b0)):
+        if cs.resolved and any(cs.node is n for n in ast.walk(loop)):
             direct.extend(cs.callees)
     tops = []
     for g in direct:
@@ -76,10 +76,36 @@ def alloc_func(ctx):
     return tops[0]
 
 
+def _is_predicate(callee):
+    """Does every `return` of the function give a truth value (comparison, boolean operator, any()/all()/isinstance(), True/False)?"""
+    nested = {id(n) for d in ast.walk(callee.node) if isinstance(d, (ast.FunctionDef, ast.Lambda)) and d is not callee.node for n in ast.walk(d)}
+    rets = [r for r in ast.walk(callee.node) if isinstance(r, ast.Return) and id(r) not in nested]
+    if not rets:
+        return False
+
+    def truthy(v):
+        if v is None:
+            return False
+        if isinstance(v, (ast.Compare, ast.BoolOp)) or (isinstance(v, ast.UnaryOp) and isinstance(v.op, ast.Not)):
+            return True
+        if isinstance(v, ast.Constant) and isinstance(v.value, bool):
+            return True
+        if isinstance(v, ast.Call) and isinstance(v.func, ast.Name) and v.func.id in ("any", "all", "isinstance", "bool"):
+            return True
+        if isinstance(v, ast.IfExp):
+            return truthy(v.body) and truthy(v.orelse)
+        return False
+    return all(truthy(r.value) for r in rets)
+
+
 def helper_with_effects(ctx, f, callee):
+    """A private helper of the allocator's class that is a *piece of the allocator*: it changes something, or it hands back what the
+    allocator works on (the candidate lists).  Pure predicates are not pieces: their truth is tracked as a fact."""
     if callee.cls != f.cls or not callee.name.startswith("_") or callee.name.endswith("__"):
         return False
-    return any(e.kind in ("store", "mut", "del") for g in ctx.eff.reachable([callee], precise=True) for e in ctx.eff.of(g))
+    if any(e.kind in ("store", "mut", "del") for g in ctx.eff.reachable([callee], precise=True) for e in ctx.eff.of(g)):
+        return True
+    return not _is_predicate(callee)
 
 
 def alloc_inline(ctx, extra=None):
